@@ -24,6 +24,7 @@ def main(argv=None):
         from . import selftest
 
         return selftest.main(a.tier)
+    os.environ["VERIF_TIER"] = a.tier
     pid = a.prop.upper()
     if pid not in PROPS:
         print("unknown property %r" % a.prop, file=sys.stderr)
